@@ -48,7 +48,9 @@ func (r *verifConnRecorder) Flush() {
 // verifTimeoutHandler is the executor's model of http.TimeoutHandler (the real one runs
 // natively): the inner handler writes into a buffering writer that is neither a Flusher nor
 // a Hijacker and keeps the first status it is given; the buffered response is copied out when
-// the handler returns. No time passes during a request, so the timeout itself never fires.
+// the handler returns. No time passes during a request; the timeout fires exactly when the harness
+// declared the backend slower than the timeout (verifSlow): the inner handler's response is then
+// discarded and 503 + msg is written with whatever headers the OUTER writer carries.
 type verifTimeoutWriter struct {
 	hdr         http.Header
 	code        int
@@ -75,6 +77,11 @@ func verifTimeoutHandler(h http.Handler, dt time.Duration, msg string) http.Hand
 	return http.HandlerFunc(func(w http.ResponseWriter, r *http.Request) {
 		tw := &verifTimeoutWriter{hdr: http.Header{}}
 		h.ServeHTTP(tw, r)
+		if verifSlow && dt > 0 {
+			w.WriteHeader(http.StatusServiceUnavailable)
+			w.Write([]byte(msg))
+			return
+		}
 		dst := w.Header()
 		for k, vv := range tw.hdr {
 			dst[k] = vv
@@ -88,6 +95,9 @@ func verifTimeoutHandler(h http.Handler, dt time.Duration, msg string) http.Hand
 }
 
 var verifLastPanic interface{}
+
+// verifSlow: the backend of the current request answers later than server.timeouts.handler.
+var verifSlow bool
 
 func verifServeStack(h http.Handler, rec *verifConnRecorder, r *http.Request) (aborted, crashed bool) {
 	defer func() {
@@ -130,13 +140,20 @@ func VerifStack(features, k, interim int) {
 	c.Logging.RequestID.Enabled = true
 	c.Logging.Trace.Enabled = true
 	// documented, validated and shipped as 30 in helios.yaml; whatever it is set to, the clauses below hold
-	c.Server.Timeouts.Handler = []int{0, 30}[verifrt.Choice("server.timeouts.handler", 2)]
+	c.Server.Timeouts.Handler = []int{0, 1}[verifrt.Choice("server.timeouts.handler", 2)]
 	// the balancer is built the way main builds it: NewLoadBalancer from the same configuration
 	lb := loadbalancer.VerifConfiguredLB(c, features)
 	defer lb.Stop()
 	h, err := buildHandler(c, lb)
 	verifrt.Assert(err == nil && h != nil, "the documented handler composition builds")
+	// ... and handed to the server the way main does: requests enter through the server's handler
+	c.Server.Port = 8080
+	h = createHTTPServer(c, h).Handler
+	defer func() { verifSlow = false; loadbalancer.VerifBackendSlow(false) }()
 	for i := 0; i < k; i++ {
+		// the last request of the sequence may meet a backend that is slower than the configured handler timeout
+		verifSlow = i == k-1 && c.Server.Timeouts.Handler > 0 && verifrt.Bool("backendSlowerThanTheHandlerTimeout")
+		loadbalancer.VerifBackendSlow(verifSlow)
 		r := &http.Request{Method: "POST", URL: &url.URL{Path: "/api"}, Header: http.Header{}, RemoteAddr: "10.1.2.3:4711", Body: http.NoBody}
 		keyOK := verifrt.Bool("apiKeyCorrect")
 		if keyOK {
@@ -170,6 +187,10 @@ func VerifStack(features, k, interim int) {
 		kind, _ := loadbalancer.VerifLastBackend()
 		verifrt.Assert(id != "" && rec.wire.Get("X-Trace-ID") != "", "every response path carries the request-ID and trace headers")
 		verifrt.Assert(clientID == "" || id == "" || id == clientID, "a client-supplied request ID is echoed unchanged on every response path")
+		if verifSlow && rec.status == http.StatusServiceUnavailable {
+			// (if the handler timeout is enforced anywhere, this is its 503: nothing more to say about this request)
+			continue
+		}
 		if !keyOK {
 			verifrt.Assert(rec.status == http.StatusUnauthorized && !reached, "custom-auth rejects with 401 and the backend is not contacted")
 			continue
